@@ -9,10 +9,12 @@ import (
 	"strings"
 	"testing"
 
+	"github.com/syndtr/goleveldb/leveldb/util"
 	"pgregory.net/rapid"
 
 	"verif/dbm"
 	"verif/evid"
+	"verif/gen"
 )
 
 func envInt(name string, def int) int {
@@ -157,4 +159,18 @@ func goroutineDump() string {
 		}
 	}
 	return strings.Join(out, "\n\n")
+}
+
+func utilRange(c *XCase, op *dbm.Op, key func(int) []byte) util.Range {
+	var r util.Range
+	if op.S != nil {
+		r.Start = key(*op.S)
+	}
+	if op.L != nil {
+		r.Limit = key(*op.L)
+	}
+	if r.Start != nil && r.Limit != nil && gen.Comparer(c.Cmp).Compare(r.Start, r.Limit) > 0 {
+		r.Start, r.Limit = r.Limit, r.Start
+	}
+	return r
 }
